@@ -9,8 +9,8 @@
 #include <stdint.h>
 
 typedef unsigned long ul;
-enum { F_ADDASSIGN, F_PREINC, F_POSTINC, F_SUBASSIGN, F_FETCHADD, F_FETCHSUB, F_MULODD, F_XOR, F_ORAND, F_EXCHANGE, F_CASLOOP, F_CLAIM, F_CASCALL, F_EXCHX, F_FETCHX, F_SIGNMOD, NFAM };
-static const char *famname[] = {"op=add", "++pre", "post++", "op=sub", "fetch_add", "fetch_sub", "op=mul-odd", "op=xor", "fetch_or/and", "exchange", "cas-loop", "claim-release", "cas-loop-call-desired", "exchange_explicit", "fetch_add/sub_explicit", "signflip-op=mod"};
+enum { F_ADDASSIGN, F_PREINC, F_POSTINC, F_SUBASSIGN, F_FETCHADD, F_FETCHSUB, F_MULODD, F_XOR, F_ORAND, F_EXCHANGE, F_CASLOOP, F_CLAIM, F_CASCALL, F_EXCHX, F_FETCHX, F_SIGNMOD, F_FLAGLOCK, F_TICKETLOCK, F_TREIBER, NFAM };
+static const char *famname[] = {"op=add", "++pre", "post++", "op=sub", "fetch_add", "fetch_sub", "op=mul-odd", "op=xor", "fetch_or/and", "exchange", "cas-loop", "claim-release", "cas-loop-call-desired", "exchange_explicit", "fetch_add/sub_explicit", "signflip-op=mod", "atomic_flag-spinlock", "ticket-lock", "treiber-stack"};
 static const char *wname[] = {"w1", "w2", "w4", "w8", "w1s", "w8s", "w4member", "w8pointer", "w8double", "w4float", "w2s"};
 static const int wbits[] = {8, 16, 32, 64, 8, 64, 32, 64, 64, 32, 16};
 static const int wfloat[] = {0, 0, 0, 0, 0, 0, 0, 0, 1, 1, 0};   // objects of floating type hold integral values: compared as numbers, not as bit patterns
@@ -22,6 +22,7 @@ static const char *stname[] = {"static", "automatic", "heap"};
   void w_orand_##S(void *, long, ul *, ul); void w_exchange_##S(void *, long, ul *, ul); long w_casloop_##S(void *, long, ul *, long); void w_claim_##S(void *, long, ul *, ul); \
   long w_cascall_##S(void *, long, ul *, long); void w_exchx_##S(void *, long, ul *, ul); void w_fetchx_##S(void *, long, ul *);
 DECL(u8) DECL(u16) DECL(u32) DECL(u64) DECL(i8) DECL(i64) DECL(m32) DECL(p64) DECL(i16)
+void w_flaglock_u64(void *, long, ul *); void w_ticketlock_u64(void *, long, ul *); void w_treiber_u64(void *, long, ul *, ul); void set_treiber_next(long *);
 void w_signmod_i8(void *, long, ul *, ul); void w_signmod_i16(void *, long, ul *, ul); void w_signmod_i32(void *, long, ul *, ul);
 void w_addassign_d64(void *, long, ul *); void w_preinc_d64(void *, long, ul *); void w_postinc_d64(void *, long, ul *);
 void w_addassign_f32(void *, long, ul *); void w_preinc_f32(void *, long, ul *); void w_postinc_f32(void *, long, ul *);
@@ -34,13 +35,14 @@ typedef long (*fncas)(void *, long, ul *, long);
 #define TAB(name) { (void *)w_##name##_u8, (void *)w_##name##_u16, (void *)w_##name##_u32, (void *)w_##name##_u64, (void *)w_##name##_i8, (void *)w_##name##_i64, (void *)w_##name##_m32, (void *)w_##name##_p64, 0, 0, (void *)w_##name##_i16 }
 #define NVAR 11
 static void *table[NFAM][NVAR] = { TAB(addassign), TAB(preinc), TAB(postinc), TAB(subassign), TAB(fetchadd), TAB(fetchsub), TAB(mulodd), TAB(xor), TAB(orand), TAB(exchange), TAB(casloop), TAB(claim),
-                                   TAB(cascall), TAB(exchx), TAB(fetchx), {0} };
+                                   TAB(cascall), TAB(exchx), TAB(fetchx), {0}, {0}, {0}, {0} };
 // checking rules shared with the plain spellings
-static int canon(int fam) { return fam == F_CASCALL ? F_CASLOOP : fam == F_EXCHX ? F_EXCHANGE : fam == F_FETCHX ? F_FETCHADD : fam; }
+static int canon(int fam) { return fam == F_CASCALL ? F_CASLOOP : fam == F_EXCHX ? F_EXCHANGE : fam == F_FETCHX ? F_FETCHADD : (fam == F_FLAGLOCK || fam == F_TICKETLOCK) ? F_POSTINC : fam; }
 
 static void fill_float_variants(void) {
   table[F_ADDASSIGN][8] = (void *)w_addassign_d64; table[F_PREINC][8] = (void *)w_preinc_d64; table[F_POSTINC][8] = (void *)w_postinc_d64;
   table[F_SIGNMOD][4] = (void *)w_signmod_i8; table[F_SIGNMOD][10] = (void *)w_signmod_i16; table[F_SIGNMOD][2] = (void *)w_signmod_i32;   /* the 4-byte object as a control */
+  table[F_FLAGLOCK][3] = (void *)w_flaglock_u64; table[F_TICKETLOCK][3] = (void *)w_ticketlock_u64; table[F_TREIBER][3] = (void *)w_treiber_u64;
   table[F_ADDASSIGN][9] = (void *)w_addassign_f32; table[F_PREINC][9] = (void *)w_preinc_f32; table[F_POSTINC][9] = (void *)w_postinc_f32;
 }
 static int ncpu_avail, cpus[256];
@@ -57,7 +59,7 @@ static void *thread_main(void *arg) {
   pthread_barrier_wait(&bar);
   void *f = table[j->fam][j->w];
   switch (canon(j->fam)) {
-  case F_SIGNMOD: ((fn4)f)(j->obj, j->n, j->log, (ul)j->tid); j->loglen = j->n; break;
+  case F_SIGNMOD: case F_TREIBER: ((fn4)f)(j->obj, j->n, j->log, (ul)j->tid); j->loglen = j->n; break;
   case F_XOR: ((fn4)f)(j->obj, j->n, j->log, 1ul << (j->tid % wbits[j->w])); j->loglen = j->n; break;
   case F_ORAND: ((fn4)f)(j->obj, j->n, j->log, 1ul << (j->tid % wbits[j->w])); j->loglen = 2 * j->n; break;
   case F_EXCHANGE: ((fn4)f)(j->obj, j->n, j->log, 1 + (ul)j->tid * j->n); j->loglen = j->n; break;
@@ -79,6 +81,7 @@ static void store_obj(void *obj, int w, ul v) {
 }
 static int cmp_ul(const void *a, const void *b) { ul x = *(const ul *)a, y = *(const ul *)b; return x < y ? -1 : x > y; }
 
+long *treiber_next_array;
 static long total_violations, total_ops, total_handoffs, total_casfail, phases;
 
 typedef struct { int fam, w, st, nthreads; long n; } Phase;
@@ -234,6 +237,17 @@ static void run_phase_on(void *obj, void *ctx) {
       if (final != ((ul)total & M)) { snprintf(det, sizeof det, "final %lu expected %lu", final, (ul)total & M); violation(p, "lost-update", det); }
     }
     free(succ);
+  } else if (cp.fam == F_TREIBER) {
+    // every node 1..total was pushed once: it is either still on the stack or was popped exactly once
+    ul *got = malloc(sizeof(ul) * (2 * total + 2));
+    long k = 0, empty = 0;
+    for (int t = 0; t < N; t++) for (long i = 0; i < jobs[t].loglen; i++) { if (jobs[t].log[i]) { got[k++] = jobs[t].log[i]; if ((long)((jobs[t].log[i] - 1) / n) != t) handoffs++; } else empty++; }
+    extern long *treiber_next_array;
+    for (long v = (long)final, steps = 0; v && steps <= total; v = treiber_next_array[v], steps++) got[k++] = (ul)v;
+    qsort(got, k, sizeof(ul), cmp_ul);
+    if (k != total) { snprintf(det, sizeof det, "%ld nodes accounted for (popped + still stacked), %ld pushed", k, total); violation(p, k < total ? "lost-node" : "duplicate-node", det); }
+    else for (long i = 0; i < total; i++) if (got[i] != (ul)i + 1) { snprintf(det, sizeof det, "sorted position %ld: node %lu, expected %ld", i, got[i], i + 1); violation(p, (i && got[i] == got[i - 1]) ? "duplicate-node" : "lost-node", det); break; }
+    free(got);
   } else if (cp.fam == F_SIGNMOD) {
     ul minus2 = (ul)-2 & M;
     long flippers = N / 2;
@@ -277,6 +291,8 @@ int main(int argc, char **argv) {
   for (int fam = 0; fam < NFAM; fam++)
     for (int w = 0; w < NVAR; w++) {
       if (!table[fam][w]) continue;
+      // the race detector knows pthread synchronisation only: plain data protected by a lock built from atomics would be reported as racing
+      if (small && (fam == F_FLAGLOCK || fam == F_TICKETLOCK || fam == F_TREIBER)) continue;
       int st = (idx++ + seed) % 3;
       int nst = small ? 1 : 3;
       for (int s = 0; s < nst; s++) {
@@ -287,6 +303,9 @@ int main(int argc, char **argv) {
         if ((cf == F_EXCHANGE || cf == F_CASLOOP) && wbits[w] == 8) p.n = 250 / N;
         if ((cf == F_EXCHANGE || cf == F_CASLOOP) && wbits[w] == 16 && (long)N * n > 65000) p.n = 65000 / N;
         if (cf == F_CASLOOP && p.n > 200000) p.n = 200000;
+        if (fam == F_FLAGLOCK) p.n = n / 10 + 1;
+        if (fam == F_TICKETLOCK) p.n = n / 100 + 1;
+        if (fam == F_TREIBER) { p.n = n / 4 + 1; free(treiber_next_array); treiber_next_array = calloc((long)N * p.n + 2, sizeof(long)); set_treiber_next(treiber_next_array); }
         if (wfloat[w] && wbits[w] == 32 && (long)N * p.n >= (1 << 24)) p.n = ((1 << 24) - 1) / N;
         if (p.st == 0) run_phase_on(static_object(w), &p);
         else if (p.st == 1) with_automatic(w, run_phase_on, &p);
